@@ -45,8 +45,33 @@ def _nbig(rates):
 
 def run(tier, seed):
     rng = random.Random(seed)
-    T = Tally()
+    T = Tally(max_fail=10)
     quick = tier == 'quick'
+
+    # ---------------- directed edge cases first (one per clause, so that the few recorded failures
+    # of a run name every clause that is violated, not five instances of the first one)
+    g = oe.GRIDS['2x2x2']
+    one = float(1.0 - 2.0 ** -53)                      # the largest double below 1
+    eq = [0.1] * 8                                     # float cumsum(x)[-1]/sum(x) = 0.9999999999999999
+    syn, obs = [[0, 1], [0, 1]], [0, 1, 1]
+    T.run('determinism', {'target': 'resampled_M', 'seed': 0, 'mag_bins': [1.0, 2.0], 'synthetic': syn, 'observed': obs}, key='d1')
+    T.run('determinism', {'target': 'MLL_M', 'seed': 0, 'mag_bins': [1.0, 2.0], 'synthetic': syn, 'observed': obs}, key='d2')
+    T.run('sim_test_ndarray', {'kind': 'poisson', 'mode': 'CL', 'rates': eq, 'counts': [1] + [0] * 7, 'num_simulations': 1,
+                               'random_numbers': [[one]]}, key='d3')
+    T.run('gridded_test', {'test': 'S', 'grid': oe.GRIDS['3x2x3'], 'rates': [[0.1, 0.1, 0.1]] * 6, 'events': [[0, 0]],
+                           'num_simulations': 1, 'random_numbers': [[one]]}, key='d4')
+    T.run('gridded_test', {'test': 'brier', 'grid': g, 'rates': [[0.1, 0.1]] * 4, 'events': [[0, 0]], 'num_simulations': 1,
+                           'random_numbers': [[one]]}, key='d5')
+    T.run('sim_test_ndarray', {'kind': 'binary', 'rates': [1.0], 'counts': [1], 'num_simulations': 2,
+                               'random_numbers': [[0.5], [0.5]]}, key='d6')
+    T.run('gridded_test', {'test': 'bS', 'grid': g, 'rates': [[0.5, 0.5]] * 4, 'events': [[0, 0]], 'num_simulations': 2,
+                           'random_numbers': [[0.1], [0.6]]}, key='d7')
+    T.run('sim_test_ndarray', {'kind': 'binary', 'rates': [1.0, 0.0, 1.0], 'counts': [1, 0, 0], 'num_simulations': 1,
+                               'random_numbers': [[0.6]]}, key='d8')
+    T.run('sim_test_ndarray', {'kind': 'brier', 'rates': [1.0, 0.0, 1.0], 'counts': [1, 0, 0], 'num_simulations': 1,
+                               'random_numbers': [[0.6]]}, key='d9')
+    T.run('gridded_test', {'test': 'bS', 'grid': g, 'rates': [[0.5, 0.5], [0.0, 0.0], [0.5, 0.5], [0.5, 0.5]], 'events': [[0, 0]],
+                           'num_simulations': 4, 'seed': 0, 'timeout': 2.0}, key='d10')
 
     # ---------------- rate arrays
     arrays = []
@@ -59,7 +84,7 @@ def run(tier, seed):
     special += [[0.1] * 31, [0.1] * 56] if not quick else [[0.1] * 31]
     special += [[0.0] + [0.1] * 8, [0.1] * 8 + [0.0], [0.1] * 4 + [0.0] + [0.1] * 4 + [0.0, 0.0],
                 [1e-12, 1.0, 1e-12], [1e3, 1e-6, 0.5, 0.0, 2.5], [0.3, 0.3, 0.3], [1 / 3.0] * 3, [0.7, 0.2, 0.1]]
-    n_rand = 5 if quick else 80
+    n_rand = 5 if quick else 300
     for _ in range(n_rand):
         n = rng.randint(2, 12)
         special.append([rng.choice([0.0, 1e-6, 1e-3, 0.1, 0.1, 0.3, 0.7, 2.5, 10.0]) for _ in range(n)])
